@@ -621,4 +621,80 @@ theorem autoReads_fresh (find : Bytes → Option (Decoder σ))
           rw [List.nil_append] at this
           exact this
 
+/-! ### `res.Body` wrappers -/
+
+theorem bodyReads_raw (find : Bytes → Option (Decoder σ)) (bufs : List Nat) (src : Src) :
+    (reads (Body.read find) (.raw src) bufs).out = (reads Src.read src bufs).out ∧
+    (reads (Body.read find) (.raw src) bufs).term = (reads Src.read src bufs).term := by
+  refine reads_sim (Body.read find) Src.read (fun b s => b = .raw s) ?_ bufs _ _ rfl
+  intro b s L hb
+  subst hb
+  exact ⟨rfl, rfl, rfl⟩
+
+theorem bodyReads_hdr (find : Bytes → Option (Decoder σ)) (bufs : List Nat) (r : DecR σ) (src : Src) :
+    (reads (Body.read find) (.hdr r src) bufs).out =
+      (reads (fun (p : DecR σ × Src) L => p.1.read p.2 L) (r, src) bufs).out ∧
+    (reads (Body.read find) (.hdr r src) bufs).term =
+      (reads (fun (p : DecR σ × Src) L => p.1.read p.2 L) (r, src) bufs).term := by
+  refine reads_sim (Body.read find) (fun (p : DecR σ × Src) L => p.1.read p.2 L)
+    (fun b p => b = .hdr p.1 p.2) ?_ bufs _ (r, src) rfl
+  intro b p L hb
+  subst hb
+  exact ⟨rfl, rfl, rfl⟩
+
+theorem bodyReads_auto (find : Bytes → Option (Decoder σ)) (bufs : List Nat) (a : State σ) :
+    (reads (Body.read find) (.auto a) bufs).out = (reads (autoRead find) a bufs).out ∧
+    (reads (Body.read find) (.auto a) bufs).term = (reads (autoRead find) a bufs).term := by
+  refine reads_sim (Body.read find) (autoRead find) (fun b a => b = .auto a) ?_ bufs _ _ rfl
+  intro b a L hb
+  subst hb
+  exact ⟨rfl, rfl, rfl⟩
+
+/-- The patched `peekRead` never fills `peek`. -/
+theorem autoRead_peek_none (find : Bytes → Option (Decoder σ)) (a : State σ) (L : Nat)
+    (hp : a.peek = none) : (autoRead find a L).st.peek = none := by
+  cases hd : a.detected with
+  | false =>
+    rw [autoRead_fresh find a L hd]
+    cases hns : noSniff (a.src.read L) with
+    | true => rw [peekRead_noSniff find a L hns]; exact hp
+    | false =>
+      cases hf : find (a.src.read L).out with
+      | none => rw [peekRead_none find a L hns hf]; exact hp
+      | some d => rw [peekRead_some find a L d hns hf]; exact hp
+  | true =>
+    cases hr : a.decodeReader with
+    | none => rw [autoRead_raw find a L hd hp hr]; exact hp
+    | some r => rw [autoRead_dec find a L r hd hp hr]; exact hp
+
+theorem peekDrain_len (a : State σ) (pk : Bytes) (L : Nat) : (peekDrain a pk L).out.length ≤ L := by
+  unfold peekDrain
+  split
+  · simp [List.length_take, Nat.min_le_left]
+  · split
+    · rename_i h; simp [h]
+    · split
+      · simp
+      · rename_i r _
+        have := DecR.read_len r a.src (L - pk.length)
+        simp only [List.length_append]
+        omega
+
+theorem autoRead_len (find : Bytes → Option (Decoder σ)) (a : State σ) (L : Nat) :
+    (autoRead find a L).out.length ≤ L := by
+  unfold autoRead readWith
+  split
+  · unfold peekRead
+    simp only []
+    split
+    · exact Src.read_len _ _
+    · split
+      · exact Src.read_len _ _
+      · exact DecR.read_len _ _ _
+  · split
+    · exact peekDrain_len _ _ _
+    · split
+      · exact DecR.read_len _ _ _
+      · exact Src.read_len _ _
+
 end Req.Decode
